@@ -5,7 +5,7 @@ SPEC = {
         "ready": True,
         "sources": ["c04_main.cpp", "c04_vec2i.cpp", "c04_vec2f.cpp", "c04_vec3i.cpp", "c04_vec3f.cpp", "c04_vec4i.cpp", "c04_vec4f.cpp",
                     "c04_color3.cpp", "c04_color4.cpp", "c04_shearquat.cpp", "c04_m22m33.cpp", "c04_m44.cpp",
-                    "c04_conv_vec2.cpp", "c04_conv_vec3.cpp", "c04_conv_vec4.cpp", "c04_conv_misc.cpp", "c04_stream.cpp", "c04_alias.cpp", "c04_consteval.cpp"],
+                    "c04_conv_vec2.cpp", "c04_conv_vec3.cpp", "c04_conv_vec4.cpp", "c04_conv_misc.cpp", "c04_stream.cpp", "c04_alias.cpp", "c04_consteval.cpp", "c04_interop_traits.cpp"],
         # the C++23 `if consteval` branches of the const operator[] exist only at this language level
         "source_flags": {"c04_consteval.cpp": ["-std=c++2b"]},
         "lib": ["half.cpp"],
@@ -18,7 +18,10 @@ SPEC = {
                       "every single slot x every ordered pair of boundary values with the other slots generic, and every pair of slots x a special-value "
                       "set (thorough: the full boundary alphabet, and for N<=4 all slots at once). Each result slot is compared bitwise with the C++ scalar "
                       "operation of the element type on the corresponding components; predicates are compared with their documented definition on inputs "
-                      "where it is decided exactly; layout by address identities; text by tokenisation.",
+                      "where it is decided exactly (including a negative tolerance and a NaN / infinity in one slot, decided by IEEE rules); layout by address identities; text by "
+                      "tokenisation under the product of stream flags {floatfield/precision | basefield x showbase} x {unset,left,right} x showpos x uppercase with generic, large, tiny "
+                      "and special (-0, inf, NaN, denormal) components; the interop constructors/assignments by the complete static truth table over foreign shapes "
+                      "(member count, member type, size, subscript length, C-array length).",
         "level_note": "Bounded: operands deviate from a generic tuple in at most two slots (all slots only from the 5-value special set, N<=4, thorough tier); "
                       "a defect that needs three simultaneous special components in a wider aggregate is outside the bound. Integer operand combinations whose scalar "
                       "operation is undefined behaviour in C++ are excluded. One compiler (g++ -O2 -std=c++14), default configuration.",
@@ -27,7 +30,8 @@ SPEC = {
                 "(thorough: B(T)^4, plus all slots x S(T)^(2N) for N<=4)}; non-trivial = the case, by a predicate on its operands/inputs, has a NaN / infinite / "
                 "negative-zero / denormal / extreme operand, makes a short or unsigned char result wrap, divides a float by zero, perturbs exactly one slot by 1 ulp "
                 "or to a tolerance threshold (below / at / above), converts with narrowing, truncation or a special value, goes through a foreign interop type, or "
-                "prints under a non-default stream state (classes counted separately; 'arith.generic' excluded)",
+                "prints under a non-default stream state or with a special component, compares mixed element types on a value one of them cannot represent, compares approximately "
+                "with a negative tolerance or a NaN / infinite slot, or is a cell of the interop truth table (classes counted separately; 'arith.generic' excluded)",
         "assumptions": ["operands deviate from a generic tuple in at most two slots at a time (quick) - see level_note",
                         "the C++ scalar operation of the element type (for half: float arithmetic rounded once to half) is the definition of 'the scalar operation'"],
     }
